@@ -4,12 +4,19 @@ the time-aware thread controller.
 
 Logical thread 0 is the loop thread: it makes the calls of `pre`, then (once no dispose that found
 the loop not running is in progress -- the assumption of the property) calls loop.run_forever().
-Threads 1.. are foreign threads.  A clock thread comes last.
+If the loop is stopped (op ["stop"] = loop.stop(), made by an action, by the loop thread between two
+runs or -- the same store -- by a foreign thread) run_forever() returns between two iterations of
+_run_once with whatever is queued still queued; the loop thread then makes the calls of the next
+element of `again` and (under the same condition) calls run_forever() again; when `again` is used up the
+thread ends.  Threads 1.. are foreign threads.  A clock thread comes last.
 
-A case: {"ts": bool, "t0": int, "pre": [op...], "progs": [[op...]...], "bodies": {"label": [op...]},
-         "ticks": [...]},  op = ["now", a] | ["rel", d_us, a] | ["dispose", a]
-Log entries: (tid, clock_us, kind, label), kind in ret dispret dispnoop start end cberr
-(+ harness markers call / dispcall)."""
+A case: {"ts": bool, "t0": int, "pre": [op...], "again": [[op...]...], "progs": [[op...]...],
+         "bodies": {"label": [op...]}, "ticks": [...]},
+  op = ["now", a] | ["rel", d_us, a] | ["dispose", a] | ["stop"] | ["sleep", t_us]
+  (sleep: the calling thread waits until the controlled clock shows t_us -- a busy callback when made by
+   an action, "run again later" when made between two runs)
+Log entries: (tid, clock_us, kind, label), kind in ret dispret dispnoop start end cberr stopped slept
+(+ harness markers call / dispcall / runret)."""
 from __future__ import annotations
 
 import ast
@@ -131,10 +138,14 @@ def targets(fine, ts):
     if fine:
         t = {
             BE_PATH: {f: None for f in ("_run_once", "call_at", "call_later", "call_soon_threadsafe", "_call_soon",
-                                        "call_soon")},
+                                        "call_soon", "run_forever", "_run_forever_setup", "_run_forever_cleanup")},
+            # NOT "is_running" / "stop": one-line functions (a yield before their only line adds nothing to the yield
+            # at the caller's line), and BaseEventLoop.__del__ calls is_running() from the garbage collector on
+            # whatever logical thread happens to run it, which would make the step count of a run irreproducible
             EV_PATH: {"cancel": None, "_run": None},
             ATM_PATH: {f: None for f in ("schedule", "schedule_relative", "dispose", "do_cancel_handles", "stage2",
-                                         "cancel_handle", "interval", "_on_self_loop_or_not_running")},
+                                         "cancel_handle", "interval", "_on_self_loop_or_not_running",
+                                         "_wait_for_loop")},
             ASM_PATH: {f: None for f in ("schedule", "schedule_relative", "dispose", "interval")},
         }
         return t
@@ -182,9 +193,34 @@ def run_case(case, chooser, fine=False, max_steps=3000):
     bodies = {int(k): v for k, v in case.get("bodies", {}).items()}
     disp, actions = {}, {}
     world = {"direct": 0}
+    holds = {}      # tid -> the thread has closed the gate (it may be / is on the direct path of a dispose)
+    # The property assumes that the loop does not start while a dispose() that FOUND it not running is in
+    # progress.  The moment of "finding" is inside `_on_self_loop_or_not_running`; the gate is therefore closed
+    # (harness side, on the instance; the method itself is untouched) from the moment a foreign thread enters
+    # that method until it returns False (marshalled path) or, if it returned True, until dispose() returns.
+    # A loop that is already running is not affected by the gate; it only delays run_forever().
+    orig_decide = getattr(sch, "_on_self_loop_or_not_running", None)
+    if orig_decide is not None:
+        def decide():
+            me = c.tid()
+            if me != 0 and not holds.get(me):
+                holds[me] = True
+                world["direct"] += 1
+            r = orig_decide()
+            if me != 0 and not r and holds.get(me):
+                holds[me] = False
+                world["direct"] -= 1
+            return r
+        sch._on_self_loop_or_not_running = decide
     try:
         def do_op(op, on_loop):
             k = op[0]
+            if k == "sleep":
+                # one step, enabled once the clock shows op[1] (the controller advances the clock when
+                # nobody else can run)
+                c.wait_until(lambda: clock.us >= op[1], op[1], kind="call")
+                c.emit("slept", 0)
+                return
             c.yield_point("call")
             if k in ("now", "rel"):
                 a = op[-1]
@@ -204,7 +240,8 @@ def run_case(case, chooser, fine=False, max_steps=3000):
                         d.dispose()
                     return
                 c.emit("dispcall", a)
-                counted = (not on_loop) and (not loop.is_running())
+                me = c.tid()
+                counted = orig_decide is None and (not on_loop) and (not loop.is_running())
                 if counted:
                     world["direct"] += 1
                 try:
@@ -212,7 +249,13 @@ def run_case(case, chooser, fine=False, max_steps=3000):
                 finally:
                     if counted:
                         world["direct"] -= 1
+                    if holds.get(me):
+                        holds[me] = False
+                        world["direct"] -= 1
                 c.emit("dispret", a)
+            elif k == "stop":
+                loop.stop()
+                c.emit("stopped", 0)
             else:
                 raise ValueError(op)
 
@@ -234,6 +277,13 @@ def run_case(case, chooser, fine=False, max_steps=3000):
                 do_op(op, True)
             c.wait_until(lambda: world["direct"] == 0, None, kind="call")
             loop.run_forever()
+            c.emit("runret", 0)
+            for seg in case.get("again", []):
+                for op in seg:
+                    do_op(op, True)
+                c.wait_until(lambda: world["direct"] == 0, None, kind="call")
+                loop.run_forever()
+                c.emit("runret", 0)
 
         def mk(prog):
             def body():
@@ -281,7 +331,7 @@ def run_case(case, chooser, fine=False, max_steps=3000):
 # Gallina
 # --------------------------------------------------------------------------
 
-AKIND = {"ret": 0, "dispret": 3, "dispnoop": 4, "start": 6, "end": 7, "cberr": 5}
+AKIND = {"ret": 0, "dispret": 3, "dispnoop": 4, "start": 6, "end": 7, "cberr": 5, "stopped": 8, "slept": 9}
 BIG = 999
 
 
@@ -298,6 +348,10 @@ def g_aop(op, um):
         return "ANow"
     if op[0] == "rel":
         return f"ARel {lib.gz(op[1])}"
+    if op[0] == "stop":
+        return "AStop"
+    if op[0] == "sleep":
+        return f"ASleep {lib.gz(op[1])}"
     return f"ADispose {um.get(op[1], BIG)}%nat"
 
 
@@ -312,22 +366,23 @@ def g_case(case, r, fixed):
     for m in r.moves:
         mv.append(f"AMTick {m[1]}%nat" if m[0] == "tick" else f"AMStep {m[1]}%nat")
     inp = (f"({lib.gbool(case.get('ts', True))}, {lib.gbool(fixed)}, {bodies}, {lib.gz(case.get('t0', 0))}, "
-           f"{ops(case.get('pre', []))}, [{'; '.join(ops(p) for p in case['progs'])}], [{'; '.join(mv)}])")
+           f"{ops(case.get('pre', []))}, [{'; '.join(ops(p) for p in case.get('again', []))}], "
+           f"[{'; '.join(ops(p) for p in case['progs'])}], [{'; '.join(mv)}])")
     obs = []
     for e in r.log:
         tid, us, kind = e[0], e[1], e[2]
         if kind not in AKIND:
             continue
-        lbl = 0 if kind == "cberr" else um.get(e[3], BIG)
+        lbl = 0 if kind in ("cberr", "stopped", "slept") else um.get(e[3], BIG)
         obs.append(f"({tid}%nat, {lib.gz(us)}, ({AKIND[kind]}%nat, {lbl}%nat))")
     st = [r.status[t] for t in sorted(r.status)]
     return inp, f"([{'; '.join(obs)}], [{'; '.join(str(x) + '%nat' for x in st)}])"
 
 
-CASE_TY = ("(bool * bool * list (nat * list aop) * Z * list aop * list (list aop) * list amove) * "
+CASE_TY = ("(bool * bool * list (nat * list aop) * Z * list aop * list (list aop) * list (list aop) * list amove) * "
            "(list (nat * Z * (nat * nat)) * list nat)")
-MODEL_FN = ("(fun c => match c with (ts, fx, b, t0, pre, progs, sched) => "
-            "aoutcome (arun ts fx (abody_of b) (ainit t0 pre progs) sched) end)")
+MODEL_FN = ("(fun c => match c with (ts, fx, b, t0, pre, segs, progs, sched) => "
+            "aoutcome (arun ts fx (abody_of b) (ainit t0 pre segs progs) sched) end)")
 IMPORTS = "Base.Prelude Core.AsyncIO"
 
 
@@ -337,7 +392,8 @@ IMPORTS = "Base.Prelude Core.AsyncIO"
 
 def oracle(case, r):
     """-> [(signature, message)]: once dispose() returned the action does not start; actions run on the
-    loop thread and not before their due time"""
+    loop thread and not before their due time.  Judged on the whole history, across any number of
+    stop / run-again cycles of the loop.  A signature that starts with NOTE is not a violation."""
     bad = []
     log = r.log
     ts = "threadsafe" if case.get("ts", True) else "plain"
@@ -350,7 +406,7 @@ def oracle(case, r):
     for i, e in enumerate(log):
         pos.setdefault((e[2], e[3]), i)
     kinds = {}
-    for l in [case.get("pre", [])] + case["progs"] + list(case.get("bodies", {}).values()):
+    for l in [case.get("pre", [])] + case.get("again", []) + case["progs"] + list(case.get("bodies", {}).values()):
         for op in l:
             if op[0] in ("now", "rel"):
                 kinds[op[-1]] = op
@@ -372,6 +428,14 @@ def oracle(case, r):
                         f"dispose() of action {a} returned at log position {i_disp} (thread {log[i_disp][0]}), the "
                         f"action started at position {i_start}"))
     stuck_foreign = [t for t in r.stuck if t != 0 and t != r.clock_tid]
-    if stuck_foreign:
-        bad.append((f"C33 deadlock|{ts}", f"threads {stuck_foreign} blocked for ever (a dispose() never returned)"))
+    if stuck_foreign and 0 in r.stuck:
+        # the loop thread is alive (in select, or waiting to run the loop again) and yet a dispose() never returns
+        bad.append((f"C33 deadlock|{ts}", f"threads {stuck_foreign} blocked for ever (a dispose() never returned) "
+                                          f"although the loop thread is alive"))
+    elif stuck_foreign:
+        # the loop was stopped for good with a marshalled cancel_handle still queued: that dispose() stays in
+        # future.result() for ever.  It has not returned, so the property is kept (Props/C33.v:
+        # C33_ex_stopped_for_good); counted as a quirk
+        bad.append(("NOTE C33 dispose-blocked-loop-stopped-for-good",
+                    f"threads {stuck_foreign} wait in future.result(); the loop thread has ended"))
     return bad
